@@ -451,6 +451,140 @@ theorem outer_body_sig_rejected (r : Req) (j : Nat) (hj : j + 1 < r.vs.length)
   rw [if_neg (by omega)] at this
   exact hb this
 
+/-! ## Whose request is it: `GetRequestAuthor`
+
+The author the ACL layer works with (owner / container node / inner ring classification, eACL, session subject)
+must be a key whose signature over THIS request was verified. -/
+
+theorem authorOfSig_key {o : Option Sig} {s : Sig} (h : authorOfSig S o = .key s) : o = some s := by
+  unfold authorOfSig at h
+  cases o with
+  | none => cases h
+  | some s' =>
+    simp only at h
+    split at h
+    · split at h
+      · cases h; rfl
+      · cases h
+    · split at h
+      · cases h; rfl
+      · cases h
+
+/-- **The author of an accepted request is a verified signer.** For every request, signature primitive and both
+variants: if verification accepts the request and `GetRequestAuthor` names a key, that key comes from the body
+signature of the TOP verification header and the check of exactly that (key, scheme, signature) value over exactly
+the request's body is one that verification performed successfully. -/
+theorem author_is_verified_signer (r : Req) (s : Sig)
+    (hacc : verifyReq S n3on E r = .ok) (ha : requestAuthor S r.vs = .key s) :
+    (∃ v vo, r.vs = v :: vo ∧ v.bodySig = some s) ∧ checkSig S n3on r.body s = .ok := by
+  rw [accepts_iff] at hacc
+  obtain ⟨hv, hacc⟩ := hacc
+  cases hvs : r.vs with
+  | nil => exact absurd hvs hv
+  | cons v vo =>
+    rw [hvs] at ha
+    have hb : v.bodySig = some s := authorOfSig_key S ha
+    refine ⟨⟨v, vo, rfl, hb⟩, ?_⟩
+    have hok : SigOK S n3on v.bodySig r.body := by
+      split at hacc
+      · obtain ⟨_, hall⟩ := hacc
+        have h0 := (hall 0 (by rw [hvs]; simp)).2.2
+        simp only [hvs, List.getElem_cons_zero, List.length_cons] at h0
+        split at h0
+        · exact h0
+        · rw [hb] at h0; cases h0
+      · obtain ⟨v', vo', e, _, b⟩ := hacc
+        rw [hvs] at e; cases e
+        exact b
+    obtain ⟨s', hs', hc⟩ := hok
+    rw [hb] at hs'; cases hs'
+    exact hc
+
+/-- the same through the three entry points: an exempt request (no verification header) has no author at all -/
+theorem author_is_verified_signer_entry (api : Api) (trusted : Bool) (r : Req) (s : Sig)
+    (hacc : entry S E api trusted r = .ok) (ha : requestAuthor S r.vs = .key s) :
+    checkSig S (api == .n3) r.body s = .ok := by
+  have hne : r.vs ≠ [] := by
+    intro h; rw [h] at ha; cases ha
+  have := (no_exemption_with_header S E api trusted r hne).mp hacc
+  exact (author_is_verified_signer S (api == .n3) E r s ((accepts_iff S (api == .n3) E r).mpr this) ha).2
+
+/-- `GetRequestAuthor` drops the error of the key decoding and dereferences the result: for an ACCEPTED request this
+never happens (the verified body signature's key decodes). -/
+theorem author_no_panic_when_accepted (r : Req) (hacc : verifyReq S n3on E r = .ok) :
+    requestAuthor S r.vs ≠ .nilKey := by
+  intro hn
+  rw [accepts_iff] at hacc
+  obtain ⟨hv, hacc⟩ := hacc
+  cases hvs : r.vs with
+  | nil => exact absurd hvs hv
+  | cons v vo =>
+    rw [hvs] at hn
+    simp only [requestAuthor, authorOfSig] at hn
+    cases hb : v.bodySig with
+    | none => rw [hb] at hn; cases hn
+    | some s =>
+      rw [hb] at hn
+      simp only at hn
+      have hok : SigOK S n3on v.bodySig r.body := by
+        split at hacc
+        · obtain ⟨_, hall⟩ := hacc
+          have h0 := (hall 0 (by rw [hvs]; simp)).2.2
+          simp only [hvs, List.getElem_cons_zero, List.length_cons] at h0
+          split at h0
+          · exact h0
+          · rw [hb] at h0; cases h0
+        · obtain ⟨v', vo', e, _, b⟩ := hacc
+          rw [hvs] at e; cases e
+          exact b
+      obtain ⟨s', hs', hc⟩ := hok
+      rw [hb] at hs'; cases hs'
+      split at hn
+      · rename_i hsc
+        split at hn
+        · cases hn
+        · rename_i hdec
+          -- scheme 0..2: the ordinary path of checkSig, which requires the key to decode
+          have h3 : (s.scheme == 3 && n3on) = false := by
+            have : (s.scheme == 3) = false := by
+              rcases Bool.or_eq_true _ _ |>.mp hsc with h | h
+              · rcases Bool.or_eq_true _ _ |>.mp h with h | h <;>
+                  (have := beq_iff_eq.mp h; simp [this])
+              · have := beq_iff_eq.mp h; simp [this]
+            simp [this]
+          unfold checkSig at hc
+          rw [h3] at hc
+          simp only [Bool.false_eq_true, if_false] at hc
+          split at hc
+          · cases hc
+          split at hc
+          · cases hc
+          split at hc
+          · cases hc
+          split at hc
+          · cases hc
+          · rename_i hd
+            exact hdec (by simpa using hd)
+      · split at hn <;> cases hn
+
+/-- Chain variant as the code has it: an accepted request that was forwarded (two or more verification layers) has NO
+author - its top layer carries no body signature and `GetRequestAuthor` does not look below. -/
+theorem forwarded_chain_has_no_author (r : Req) (hacc : verifyReq S n3on E r = .ok)
+    (hchain : needsOriginSig r.metas = true) (hlen : 2 ≤ r.vs.length) :
+    requestAuthor S r.vs = .noBodySig := by
+  rw [accepts_iff] at hacc
+  obtain ⟨_, hacc⟩ := hacc
+  rw [if_pos hchain] at hacc
+  cases hvs : r.vs with
+  | nil => rw [hvs] at hlen; simp at hlen
+  | cons v vo =>
+    have h0 := (hacc.2 0 (by rw [hvs]; simp)).2.2
+    simp only [hvs, List.getElem_cons_zero, List.length_cons] at h0
+    rw [hvs] at hlen
+    simp only [List.length_cons] at hlen
+    rw [if_neg (by omega)] at h0
+    simp [requestAuthor, authorOfSig, h0]
+
 /-! ## Non-vacuity -/
 
 /-- A binding scheme exists: "the signature is the message" (per key), N3 likewise. -/
@@ -518,5 +652,25 @@ theorem flat_variant_ignores_inner_layers :
     let v0 : VLayer := { metaSig := some ⟨exKey 2, exEnc.encM [m0], 1⟩, originSig := none, bodySig := some ⟨exKey 2, [9], 1⟩ }
     verifyReq bindingScheme false exEnc { body := [9], metas := [m0], vs := [v0, junk, junk] } = .ok := by
   decide
+
+/-- The statement about `requestAuthor` is not satisfied by the historical rule "descend to the innermost verification
+header": in the ≥ 2.25 variant an accepted request can carry an origin layer naming a key (7) that signed nothing that
+was checked - and nothing over this body at all. -/
+theorem innermost_author_unverified :
+    let m0 : MLayer := { hasVersion := true, major := 2, minor := 25, ttl := 1 }
+    let victim : Sig := ⟨exKey 7, [4, 4], 1⟩
+    let inner : VLayer := { metaSig := none, originSig := none, bodySig := some victim }
+    let v0 : VLayer := { metaSig := some ⟨exKey 2, exEnc.encM [m0], 1⟩, originSig := none, bodySig := some ⟨exKey 2, [9], 1⟩ }
+    let r : Req := { body := [9], metas := [m0], vs := [v0, inner] }
+    verifyReq bindingScheme false exEnc r = .ok ∧
+    innermostAuthor bindingScheme r.vs = .key victim ∧ checkSig bindingScheme false r.body victim ≠ .ok ∧
+    requestAuthor bindingScheme r.vs = .key ⟨exKey 2, [9], 1⟩ := by
+  decide
+
+example : requestAuthor bindingScheme exReq2.vs = .noBodySig := by decide
+example : requestAuthor bindingScheme (exReq2.vs.drop 1) = .key ⟨exKey 1, [1, 2, 3], 0⟩ := by decide
+example : requestAuthor bindingScheme [{ metaSig := none, originSig := none, bodySig := some ⟨[5], [1], 0⟩ }] = .nilKey := by decide
+example : requestAuthor bindingScheme [{ metaSig := none, originSig := none, bodySig := some ⟨[5], [1], 3⟩ }] = .key ⟨[5], [1], 3⟩ := by decide
+example : requestAuthor bindingScheme [{ metaSig := none, originSig := none, bodySig := some ⟨[5], [1], 4⟩ }] = .badScheme := by decide
 
 end NeoFS.SigChain
